@@ -177,8 +177,8 @@ impl From<String> for Datatype {
     fn from(specifier: String) -> Self {
         match specifier.as_str() {
             "c" | "C" => Datatype::Char,
-            "d" | "i" | "u" | "o" | "p" | "x" | "X" | "hi" | "hd" | "hu" => Datatype::Integer,
-            "s" | "S" | "n" => Datatype::Pointer,
+            "d" | "i" | "u" | "o" | "x" | "X" | "hi" | "hd" | "hu" => Datatype::Integer,
+            "s" | "S" | "n" | "p" => Datatype::Pointer,
             "lf" | "lg" | "le" | "la" | "lF" | "lG" | "lE" | "lA" | "f" | "F" | "e" | "E" | "a"
             | "A" | "g" | "G" => Datatype::Double,
             "li" | "ld" | "lu" => Datatype::Long,
